@@ -571,8 +571,8 @@ def plan(chk):
     quick = chk.quick
     per = {"l1d": (80, 25, 25), "lnd2": (24, 10, 10), "lnd3": (8, 4, 4), "avg": (20, 8, 8), "avg1d": (16, 8, 8),
            "seq": (20, 8, 8), "int": (30, 10, 10)} if quick else \
-          {"l1d": (300, 60, 60), "lnd2": (80, 25, 25), "lnd3": (30, 10, 10), "avg": (60, 20, 20),
-           "avg1d": (60, 20, 20), "seq": (60, 20, 20), "int": (80, 25, 25)}
+          {"l1d": (900, 180, 180), "lnd2": (240, 75, 75), "lnd3": (90, 30, 30), "avg": (180, 60, 60),
+           "avg1d": (180, 60, 60), "seq": (180, 60, 60), "int": (240, 75, 75)}
     kinds = list(BASE_KINDS)
     ok2d, why = learner2d_usable()
     if ok2d:
